@@ -260,6 +260,22 @@ theorem scaled_literal_value (minus ip fr ex : Bytes) (hm : minus = [] ∨ minus
        else ((AslModel.Strtod.digitsVal (ip ++ fracDigits fr) * 10 ^ k : Nat) : Rat)) :=
   scaled_literal_exact minus ip fr ex hm hip hf hx k hk h0 hN
 
+open AslProofs.Num in
+/-- the decoder end of it: a document that is such a literal (any white space around it) decodes to the double `atof`
+    gives for the lexeme, whatever its length - so with `scaled_literal_value` `Json::decode(" 2.5e3 ")` is the double 2500 -/
+theorem frac_exp_literal_decoded (minus ip fr ex w : Bytes) (hf : Rfc8259.Frac fr) (hx : Rfc8259.Exp ex)
+    (h : fr ≠ [] ∨ ex ≠ []) (hw : Rfc8259.SerDoc (.num (minus ++ ip ++ fr ++ ex)) w) :
+    decode w = some (some (.num (minus ++ ip ++ fr ++ ex))) := by
+  have hn : Rfc8259.norm (.num (minus ++ ip ++ fr ++ ex)) = .num (minus ++ ip ++ fr ++ ex) := by
+    have := isIntLex_false (minus ++ ip) fr ex hf hx h
+    show (if Rfc8259.isIntLex (minus ++ ip ++ fr ++ ex) = true ∧ (minus ++ ip ++ fr ++ ex).length ≤ 9 then _ else _) = _
+    rw [this]
+    simp
+  have := rfc_accept _ w hw (by simp [Rfc8259.depth])
+  rwa [hn] at this
+
+example : decode [32, 50, 46, 53, 101, 51, 32] = some (some (.num [50, 46, 53, 101, 51])) := by rfl   -- " 2.5e3 "
+
 /-- non-vacuity: `2.5e3` (mantissa 25, one fraction digit, exponent 3: k = 2, value 2500) -/
 example : Rfc8259.Frac [46, 53] ∧ Rfc8259.Exp ([101] ++ [] ++ [51]) ∧ Rfc8259.IntPart [50] ∧
     AslModel.Strtod.digitsVal ([50] ++ AslProofs.Num.fracDigits [46, 53]) * 10 ^ 2 = 2500 ∧
